@@ -15,11 +15,11 @@ const ethdb = "github.com/ethereum/go-ethereum/ethdb."
 
 // canonical names of the key-value interface methods (declared in go-ethereum's ethdb)
 var (
-	kvPut    = ethdb + "KeyValueWriter.Put"
-	kvDelete = ethdb + "KeyValueWriter.Delete"
-	kvGet    = ethdb + "KeyValueReader.Get"
-	kvHas    = ethdb + "KeyValueReader.Has"
-	kvStat   = ethdb + "Stater.Stat"
+	kvPut     = ethdb + "KeyValueWriter.Put"
+	kvDelete  = ethdb + "KeyValueWriter.Delete"
+	kvGet     = ethdb + "KeyValueReader.Get"
+	kvHas     = ethdb + "KeyValueReader.Has"
+	kvStat    = ethdb + "Stater.Stat"
 	kvCompact = ethdb + "Compacter.Compact"
 )
 
